@@ -208,23 +208,32 @@ def oracle(ctx, widen=1):
                     ctx.violation(f"{system} via {label} {form}: {bad}", {"form": list(form), "system": system}, {"kind": "b-matrix", "system": system, "form": label})
     ctx.stream("oracle:metric-tensor", cases, len(kinds))
     # the same quantities asked of ONE calculation object while its lattice changes (stale state between calls)
-    nseq = ctx.scale(30, 1500) * widen
+    nseq = ctx.scale(98, 1500) * widen      # 49 ordered pairs of systems, twice
     steps = 0
     for it in range(nseq):
         ub = UBCalculation("seq")
         hk = [np.array([ctx.rng.randint(-3, 3), ctx.rng.randint(-3, 3), ctx.rng.randint(1, 3)], float) for _ in range(2)]
         en = ctx.rng.choice([8.0, 12.0, ctx.rng.uniform(8, 20)])
         bad = None
-        for step in range(ctx.rng.randint(2, 5)):
-            system = ctx.rng.choice(SYSTEMS)
+        nsteps = ctx.rng.randint(2, 5)
+        for step in range(nsteps):
+            # every ordered pair (previous system, next system) occurs: the sequence walks through the systems from a rotating start
+            system = (SYSTEMS[it % len(SYSTEMS)] if step == 0 else SYSTEMS[(it // len(SYSTEMS)) % len(SYSTEMS)] if step == 1 else ctx.rng.choice(SYSTEMS))
             minimal, full = rand_cell(ctx.rng, system)
-            label, form = ctx.rng.choice(call_forms(ctx.rng, system, minimal, full))
+            forms = call_forms(ctx.rng, system, minimal, full)
+            inferred = [f for f in forms if "inferred" in f[0]]
+            label, form = ctx.rng.choice(inferred) if inferred and (step == 1 and it < 49 or ctx.rng.random() < 0.5) else ctx.rng.choice(forms)
             Gi = np.linalg.inv(metric(full))
             try:
                 with quiet():
+                    if step == 0 and it % 3 == 0:
+                        ub.set_ub((np.eye(3) * 1.3 + 0.2).tolist())     # a UB imported for some other cell, before any lattice exists
                     ub.set_lattice("x", *form)
                     if step % 2 == 1:
                         ub.set_u(np.eye(3))
+                    elif step % 3 == 2:
+                        # a UB that is not a rotation times this crystal's B (imported from a slightly different cell): the crystal itself is unchanged
+                        ub.UB = np.asarray(ub.crystal.B, float) * 1.07 + 0.05
                 steps += 1
                 for h in hk:
                     dref = 1 / math.sqrt(h @ Gi @ h)
